@@ -167,6 +167,37 @@ def r2(ctx, retsets):
             good = bool(succ) and all(o["counts"].get("insert") == 1 and o["counts"].get("sort") == 1 and o["counts"].get("lk") == "U" for o in succ)
             det = "success states %s" % [{k: v for k, v in o["counts"].items() if k in ("insert", "sort", "sort?", "lk")} for o in succ][:2]
         ctx.check(good, "C15.R2", "add_group[preference %s]" % ("in use" if dup else "new"), "%s:%d" % (fn.relfile, fn.line), det, key="C15.R2:add:%s" % dup)
+    # the group count moves with the list, on every path (allocation and socket-initialisation failures included)
+    for gname, listop, step in (("rtr_mgr_add_group", "tommy_list_insert_tail", 1), ("rtr_mgr_remove_group", "tommy_list_remove_existing", -1)):
+        gf = pdb.fn(gname)
+        LENF = "rtr_mgr_config.len"
+
+        def classify_len(inst, E, st, gf=gf, listop=listop, step=step):
+            if inst.op == "call" and inst.callee:
+                c = inst.callee
+                if c == "tommy_list_head":
+                    return [([], {inst.ref: ("nin", frozenset([0]))})]
+                if c == "lrtr_malloc":
+                    return [([], {inst.ref: ("nin", frozenset([0]))}), ([], {inst.ref: flow.av_in(0)})]
+                if c == "rtr_mgr_init_sockets":
+                    return [([], {inst.ref: flow.av_in(0)}), ([], {inst.ref: flow.av_in(-1)})]
+                if c == listop:
+                    return ["list"]
+            if inst.op == "store" and vf.store_field(inst) == LENF:
+                v = vf.expr(gf, inst["val"])
+                want = ("bin", "add", ("load", vf.expr(gf, inst["ptr"])), ("c", step))
+                return ["count" if v == want else "count?"]
+            if inst.op == "load" and vf.last_field(vf.expr(gf, inst["ptr"])) == "tommy_node_struct.next":
+                return flow.KILL if st.get("walk", 0) >= 1 else ["walk"]
+            return None
+        outs_l, _f = es.count_effects(gf, pdb, classify_len, retsets, cap=128)
+        off = [o for o in outs_l if o["counts"].get("count?") or o["counts"].get("count", 0) != o["counts"].get("list", 0) or
+               (flow.av_single(o["ret"]) == 0) != (o["counts"].get("list", 0) == 1)]
+        ctx.check(bool(outs_l) and not off, "C15.R2", "%s:count-follows-list" % gname, (off[0]["inst"].loc() if off else "%s:%d" % (gf.relfile, gf.line)),
+                  ("a path returns %s with %d list change(s) and %d count change(s)" % (flow.av_single(off[0]["ret"]), off[0]["counts"].get("list", 0),
+                                                                                      off[0]["counts"].get("count", 0) + off[0]["counts"].get("count?", 0))) if off else
+                  "%d return states: config->len changes by %+d exactly on the paths that changed the list, and exactly those report success" % (len(outs_l), step),
+                  key="C15.R2:%s:count" % gname, path=(flow.trace_lines(gf, off[0]["trace"]) if off else None))
     for f in ("rtr_mgr_add_group", "rtr_mgr_init"):
         g = pdb.fn(f)
         ins = g.calls("tommy_list_insert_tail")
@@ -485,6 +516,30 @@ def r6(ctx, retsets):
             found = [o["counts"] for o in outs]
             ctx.check(bool(outs) and all(c == exp for c in found), "C15.R6", "state_error[%s,%s]" % ("some group established" if some_est else "no group established", "closed group available" if have_next else "none available"),
                       "%s:%d" % (fe.relfile, fe.line), "effects %s, expected %s" % (found, exp), key="C15.R6:error:%s:%s" % (some_est, have_next))
+    # "some group is established" means exactly: a group whose reported status is ESTABLISHED (one list element per status value)
+    ie = pdb.fn("is_some_rtr_mgr_group_established")
+    ctx.touch(ie)
+    est = pdb.enum_value("RTR_MGR_ESTABLISHED")
+    for stname, stv in sorted(pdb.enum("rtr_mgr_status").items(), key=lambda kv: kv[1]):
+        went = []
+
+        def values(pe, stv=stv):
+            if vf.last_field(pe) == "rtr_mgr_group.status":
+                return stv
+            return None
+
+        def classify_e(inst, E, st):
+            if inst.op == "call" and inst.callee == "tommy_list_head":
+                return [([], {inst.ref: ("nin", frozenset([0]))})]
+            if inst.op == "load" and vf.last_field(vf.expr(ie, inst["ptr"])) == "tommy_node_struct.next":
+                went.append(1)
+                return flow.KILL
+            return None
+        outs_e, _f = es.count_effects(ie, pdb, classify_e, None, values=values)
+        rets = {flow.av_single(o["ret"]) for o in outs_e}
+        good = (rets == {1} and not went) if stv == est else (not rets and bool(went))
+        ctx.check(good, "C15.R6", "some-group-established[status %s]" % stname[8:], "%s:%d" % (ie.relfile, ie.line),
+                  "a group in this status: returns %s, goes on to the next group: %s" % (sorted(rets, key=str), bool(went)), key="C15.R6:some-est:%s" % stname)
     gb = pdb.fn("get_best_inactive_rtr_mgr_group")
     ctx.touch(gb)
     closed = pdb.enum_value("RTR_MGR_CLOSED")
